@@ -38,6 +38,11 @@ CONSTANTS Vary,     \* set of dimension names that range freely in this run; the
           ScopeAware \* FALSE: the rewriter as it is (scope holds var/const names only, consulted for the
                      \* qualifier only); TRUE: after fixes/C25-shadowed-names.diff (:=, parameters, package
                      \* funcs are in the scope too, and the builtin's own name is looked up as well)
+          , LambdaParamsScoped \* FALSE: parameters of a function literal ARGUMENT are not in the rewriter's scope
+                     \* (formatCallExpr turns the literal into a lambda first, and formatExpr of a
+                     \* LambdaExpr/LambdaExpr2 inserts nothing); TRUE: after fixes/C25-lambda-param-scope.diff
+          , BareReturnLambda2  \* FALSE: `func() { return }` becomes a LambdaExpr with an empty right-hand side
+                     \* (the printer then panics); TRUE: after fixes/C25-bare-return-lambda.diff (LambdaExpr2)
 
 PrintFns   == {"Print", "Printf", "Println"}
 FprintFns  == {"Fprint", "Fprintf", "Fprintln"}
@@ -60,9 +65,9 @@ Dom(dim) ==
     [] dim = "pos"       -> {"stmt", "assign", "arg", "defer"}
     [] dim = "arg"       -> {"str", "neg", "paren", "none"}
     [] dim = "sh"        -> Shs
-    [] dim = "shk"       -> {"-", "local", "define", "param", "pkgvar", "pkgfunc", "import"}
+    [] dim = "shk"       -> {"-", "local", "define", "param", "litparam", "pkgvar", "pkgfunc", "import"}
     [] dim = "sel"       -> {"-", "pkgfn", "method1", "method2", "field", "methprint"}
-    [] dim = "lit"       -> {"-", "ret1", "ret2", "named", "unnamed", "multi", "noparam", "void", "voidmulti"}
+    [] dim = "lit"       -> {"-", "ret1", "ret2", "named", "unnamed", "multi", "noparam", "void", "voidmulti", "barereturn"}
     [] dim = "callee"    -> {"typed", "any"}
     [] dim = "mainpos"   -> {"last", "notlast"}
     [] dim = "mainfirst" -> {"call", "var", "define"}
@@ -77,12 +82,13 @@ Valid(d) ==
   /\ (d.fn = "Sscan" => d.pos = "assign" /\ d.arg = "str")
   /\ (d.arg = "none" => d.fn \in {"Println", "Print", "Sprint", "Sprintln", "Fprintln", "Fprint"})
   /\ (d.sh = "-" <=> d.shk = "-")
-  /\ (d.sh = "fmt" => d.shk \in {"local", "define", "param"} /\ d.fn \in {"Println", "Printf", "Print"}
+  /\ (d.sh = "fmt" => d.shk \in {"local", "define", "param", "litparam"} /\ d.fn \in {"Println", "Printf", "Print"}
                       /\ d.pos = "stmt" /\ d.arg = "str")
   /\ (d.sh = "toUpper" => d.sel = "pkgfn")
   /\ (d.shk = "import" => d.sh \notin {"fmt"})
   /\ (d.callee = "any" => d.lit \in {"ret1", "multi"})
   /\ (d.mainfirst = "var" \/ d.mainfirst = "define" => d.shk \notin {"param"})
+  /\ (d.shk = "litparam" => d.lit = "-")     \* the site then sits inside a literal argument of its own
   /\ (d.pos = "defer" => d.fn \in PrintFns \cup FprintFns)
 
 Descs == { d \in [fn : Range("fn"), w : Dom("w"), pos : Dom("pos"), arg : Range("arg"),
@@ -118,6 +124,7 @@ Init == /\ d \in Descs
 \* gopstyle.go formatCtx.scope: only names of `var` / `const` specs are inserted (formatGenDecl);
 \* `:=`, parameters, func and import names are not.
 RewriterSees(shk) == IF ScopeAware THEN shk \in {"local", "define", "param", "pkgvar", "pkgfunc"}
+                                         \cup (IF LambdaParamsScoped THEN {"litparam"} ELSE {})
                      ELSE shk \in {"local", "pkgvar"}
 \* the name the site would be converted to is declared by the program and the rewriter knows it
 BuiltinNameSeen(x) == ScopeAware /\ x.sh # "-" /\ x.sh = Builtin(x.fn) /\ RewriterSees(x.shk)
@@ -144,6 +151,7 @@ RSel == /\ Rule("sel")
 LitShape(l) == CASE l = "-" -> "none"
                  [] l = "named" -> "kept"
                  [] l \in {"ret1", "ret2", "unnamed", "noparam"} -> "lambda"     \* single `return e1..en`
+                 [] l = "barereturn" -> IF BareReturnLambda2 THEN "lambda2" ELSE "lambda"  \* `return` alone: n = 0
                  [] OTHER -> "lambda2"                                         \* multi, void, voidmulti
 RLit == /\ Rule("lit")
         /\ st' = Mark([st EXCEPT !.litsite = LitShape(d.lit)], "lit")
@@ -191,6 +199,7 @@ MainVarHoisted(x) == x.mainpos = "last" /\ x.mainfirst = "var"
 Safe(x) == /\ ~BuiltinCaptured(x) /\ ~QualifierMisread(x) /\ ~MainVarHoisted(x)
            /\ x.sel # "method2"            \* t.Get() -> t.get() reaches the lower-case twin
            /\ x.callee # "any"             \* a lambda has no type of its own
+           /\ (x.lit = "barereturn" => BareReturnLambda2)   \* `=> ` with nothing after it cannot be printed
 
 \* --- what TLC checks on the model ---------------------------------------------
 TypeOK == /\ st.done \subseteq AllRules /\ pc \in {"rewrite", "done"}
